@@ -237,6 +237,10 @@ class Monitor:
     def install(self):
         if self.repo.root not in sys.path:
             sys.path.insert(0, self.repo.root)
+        vsp = "/venv/lib/python3.12/site-packages"
+        import os
+        if os.path.isdir(vsp) and vsp not in sys.path:
+            sys.path.append(vsp)      # pure-python third-party packages of the repository's own environment (pyvis, dill)
         for m in list(sys.modules):
             if m == "edgegraph" or m.startswith("edgegraph."):
                 del sys.modules[m]
@@ -252,7 +256,10 @@ class Monitor:
             if q.startswith(("breadthfirst.", "depthfirst.")) and not q.endswith("_df_preflight_checks"):
                 continue        # their contracts speak about existential ghosts (machine step counts): not evaluable at run time;
                                 # the explorer compares these functions with the canonical machines directly
-            mod = importlib.import_module(fi.module)
+            try:
+                mod = importlib.import_module(fi.module)
+            except ImportError:
+                continue
             if fi.cls:
                 cls = getattr(mod, fi.cls, None)
                 if cls is None:
@@ -559,11 +566,12 @@ class Monitor:
         if len(applicable) != 1:
             return self.fail(qualname, f"{len(applicable)} outcomes apply (contract conditions must partition)", conc)
         o = applicable[0]
-        if (o.exc is None) != (exc is None):
+        any_exit = (o.exc == "*")
+        if not any_exit and (o.exc is None) != (exc is None):
             return self.fail(qualname, f"contract outcome '{o.label or o.exc or 'normal'}' expected "
                              f"{'an exception ' + str(o.exc) if o.exc else 'normal return'}, observed "
                              f"{type(exc).__name__ if exc else 'normal return'}", conc)
-        if o.exc is not None:
+        if o.exc is not None and not any_exit:
             from .engine import exc_matches
             oexc = (o.exc,) if isinstance(o.exc, str) else tuple(o.exc)
             if "UserExc" in oexc and getattr(exc, "_pyvc_user", False):
@@ -601,7 +609,9 @@ class Monitor:
         def S_(t):
             return z3.substitute(t, *subst) if subst else t
         # result
-        if o.exc is None and o.result is not None and not isinstance(o.result, VOpaque):
+        if any_exit:
+            pass
+        elif o.exc is None and o.result is not None and not isinstance(o.result, VOpaque):
             exp = o.result
             if isinstance(exp, VRef):
                 good = holds(S_(exp.term) == world.ref(result))
